@@ -167,6 +167,8 @@ def line_chain(chk, P):
 
 def run(chk, ctx):
     P = Prog(ctx["facts"])
+    from . import eqrules
+    eqrules.require_clone(chk, P, ["stmt::DataEntries"], "expansion copies keep the row's line")
     chk.explanation = ("C19 decided structurally: WHO/GUARD (the two line counters start at 1, are handed over unchanged, and are incremented by exactly 1 only in the header loop's Eol arm and in the consume primitive on the edge tok.kind == Eol; "
                        "the consume primitive is the only consumer of the token iterator), LEX (in both lexers the only pattern whose language contains '\\n' is Eol = \"\\n\": CR, blanks and comments cannot count or swallow a newline), "
                        "TKA + ORD (parse_data_row returns with the terminating Eol/Eof unconsumed and Stmt::DataRow reads self.line before any further token is consumed, for plain and repeat rows), "
